@@ -716,6 +716,23 @@ fn one(c: &J) -> Result<J, String> {
             };
             Ok(json!({"ffi": ffi_ans, "api": api}))
         }
+        // ---------------- the library's own conversion API PolicySet -> ffi::StaticPolicySet, fed back
+        "static_from_api" => {
+            let text = c.get("text").and_then(|t| t.as_str()).ok_or("no text")?;
+            match cp::PolicySet::from_str(text) {
+                Err(_) => Ok(json!({"ffi": {"fail": ["text does not parse"]}, "api": {"fail": 1}})),
+                Ok(ps) => {
+                    let st = ffi::StaticPolicySet::from(&ps);
+                    let doc = serde_json::to_value(&st).map_err(rep)?;
+                    let n = ps.policies().count();
+                    let back = match ffi::check_parse_policy_set_json(json!({"staticPolicies": doc.clone()})) {
+                        Ok(a) => render_checkparse(&a),
+                        Err(e) => bad_call(e),
+                    };
+                    Ok(json!({"ffi": back, "api": {"ok": true, "n": n}, "document": doc}))
+                }
+            }
+        }
         _ => Err(format!("unknown ffi op {op}")),
     }
 }
